@@ -1,14 +1,17 @@
 """Shared by c04.py and c05.py: program trees (basic commands, if-chains, loops), their JMC
-source text, their Coq term (Model.Loop.stmts, with the *predicted* lowering of each
-condition to precommands + execute sub-clauses), a source-level interpreter (JavaScript
-meaning) and the comparison of the really emitted functions, run in mcvm, against it.
+source text, their Coq term (Model.Loop.stmts; the lowering of each condition to precommands +
+execute sub-clauses is NOT predicted here: the term hands the formula to `Run.C04.lowc`, i.e. to
+property C03's model of condition.py), a source-level interpreter (JavaScript meaning) and the
+comparison of the really emitted functions, run in mcvm, against it.
 
 Program tree (plain tuples):
   ("say", text) | ("set", var, k) | ("add", var, k) | ("sub", var, k)
   ("if", [(cond, body), ...], else_body | None)
   ("while", cond, body) | ("dowhile", body, cond) | ("for", init_cmds, cond, step_cmds, body)
-cond = list of items (a conjunction); item = ("atom", atom) | ("or", [[atom, ...], ...])
+cond = list of items (a conjunction); item = ("atom", atom) | ("or", [[atom, ...], ...]) | ("f", F)
+F    = ("A", atom) | ("&", [F, ...]) | ("|", [F, ...]) | ("!", F)          any nesting
 atom = (var, op, rhs)   op in == != < <= > >= ; rhs an int or a "$var"
+     | (var, "truthy", None)  `$v`      | (var, "matches", (a, b))  `$v matches a..b`
 """
 from __future__ import annotations
 
@@ -16,6 +19,7 @@ import sys
 
 from lib import coq_str, coq_z
 from mcvm import VM, Invalid, OutOfFuel, wrap
+import c03_gen as F3
 
 sys.setrecursionlimit(50000)
 
@@ -36,20 +40,143 @@ def names_term(c, ns="TEST"):
 
 # ------------------------------------------------------------------ source text
 
-def atom_src(a):
-    v, op, r = a
-    return f"{v} {op} {r}"
+# ------------------------------------------------------------------ formulas
+
+def A(v, op="==", r=1):
+    return ("A", (v, op, r))
 
 
-def cond_src(cond):
-    parts = []
+def TRUTHY(v):
+    return ("A", (v, "truthy", None))
+
+
+def MATCHES(v, a, b):
+    return ("A", (v, "matches", (a, b)))
+
+
+def AND(*xs):
+    return ("&", list(xs))
+
+
+def OR(*xs):
+    return ("|", list(xs))
+
+
+def NOT(x):
+    return ("!", x)
+
+
+def cond_formula(cond):
+    """the formula a condition (conjunction of items) denotes"""
+    fs = []
     for kind, x in cond:
         if kind == "atom":
-            parts.append(atom_src(x))
+            fs.append(("A", x))
+        elif kind == "or":
+            fs.append(("|", [("A", c[0]) if len(c) == 1 else ("&", [("A", a) for a in c]) for c in x]))
         else:
-            s = " || ".join(" && ".join(atom_src(a) for a in conj) for conj in x)
-            parts.append(s if len(cond) == 1 else f"({s})")
-    return " && ".join(parts)
+            fs.append(x)
+    return fs[0] if len(fs) == 1 else ("&", fs)
+
+
+def f_atoms(f):
+    if f[0] == "A":
+        return [f[1]]
+    if f[0] == "!":
+        return f_atoms(f[1])
+    return [a for x in f[1] for a in f_atoms(x)]
+
+
+def cond_atoms(cond):
+    return f_atoms(cond_formula(cond))
+
+
+def _atom_c03(a):
+    v, op, r = a
+    if op == "truthy":
+        return {"kind": "truthy", "lhs": v}
+    if op == "matches":
+        return {"kind": "matches", "lhs": v, "a": r[0], "b": r[1]}
+    return {"kind": "cmp", "lhs": v, "sp": op, "rhs": ["lit", r, str(r)] if isinstance(r, int) else ["score", r]}
+
+
+def f_c03(f):
+    """the same formula in c03_gen's representation (source text, tokens and Coq term come from there)"""
+    if f[0] == "A":
+        return {"op": "atom", "atom": _atom_c03(f[1])}
+    if f[0] == "!":
+        return {"op": "not", "arg": f_c03(f[1])}
+    return {"op": "and" if f[0] == "&" else "or", "args": [f_c03(x) for x in f[1]]}
+
+
+def _negate(f):
+    """condition.py negate_ast ("NA" = a leaf with reversed polarity)"""
+    k = f[0]
+    if k == "A":
+        return ("NA", f[1])
+    if k == "NA":
+        return ("A", f[1])
+    if k == "&":
+        return ("|", [_negate(x) for x in f[1]])
+    if k == "|":
+        return ("&", [_negate(x) for x in f[1]])
+    return f[1]
+
+
+def f_pre(f):
+    """(precommand entries, distinct __logic__ flags) of the lowering — for the statistics only"""
+    k = f[0]
+    if k in ("A", "NA"):
+        return 0, 0
+    if k == "&":
+        es = [f_pre(x) for x in f[1]]
+        return sum(e for e, _ in es), sum(n for _, n in es)
+    if k == "|":
+        es = [f_pre(x) for x in f[1]]
+        return sum(e for e, _ in es) + len(es), 1 + sum(n for _, n in es)
+    if f[1][0] == "&":
+        e, n = f_pre(f[1])
+        return e + 1, n + 1
+    return f_pre(_negate(f[1]))
+
+
+def cond_pre_lines(cond):
+    e, n = f_pre(cond_formula(cond))
+    return e + n
+
+
+def f_depth(f):
+    if f[0] == "A":
+        return 0
+    if f[0] == "!":
+        return 1 + f_depth(f[1])
+    return 1 + max(f_depth(x) for x in f[1])
+
+
+def f_smaller(f):
+    """formulas one step smaller (shrinking of failing inputs)"""
+    if f[0] == "A":
+        return
+    if f[0] == "!":
+        yield f[1]
+        for g in f_smaller(f[1]):
+            yield ("!", g)
+        return
+    args = f[1]
+    for x in args:
+        yield x
+    if len(args) > 2:
+        for i in range(len(args)):
+            yield (f[0], args[:i] + args[i + 1:])
+    for i, x in enumerate(args):
+        for g in f_smaller(x):
+            yield (f[0], args[:i] + [g] + args[i + 1:])
+
+
+# ------------------------------------------------------------------ source text
+
+def cond_src(cond):
+    return F3.formula_text(f_c03(cond_formula(cond)))
 
 
 def stmt_src(s, ind=1):
@@ -102,50 +229,9 @@ def score_term(v, cert):
     return f"({coq_str(v)}, {coq_str(cert['VAR'])})"
 
 
-def atom_test_term(a, cert):
-    v, op, r = a
-    s = score_term(v, cert)
-    if isinstance(r, int):
-        pos = "true"
-        if op == "==":
-            rg = f"Exact {coq_z(r)}"
-        elif op == "!=":
-            pos, rg = "false", f"Exact {coq_z(r)}"
-        elif op == ">":
-            rg = f"From {coq_z(r + 1)}"
-        elif op == ">=":
-            rg = f"From {coq_z(r)}"
-        elif op == "<":
-            rg = f"To {coq_z(r - 1)}"
-        elif op == "<=":
-            rg = f"To {coq_z(r)}"
-        else:
-            raise ValueError(op)
-        return f"({pos}, Matches {s} ({rg}))"
-    s2 = score_term(r, cert)
-    if op == "!=":
-        return f"(false, Cmp {s} CEq {s2})"
-    o = {"==": "CEq", "<": "CLt", "<=": "CLe", ">": "CGt", ">=": "CGe"}[op]
-    return f"(true, Cmp {s} {o} {s2})"
-
-
-def cond_term(cond, cert):
-    """predicted result of parse_condition: precommand lines and execute sub-clauses"""
-    pre, tests, k = [], [], 0
-    for kind, x in cond:
-        if kind == "atom":
-            tests.append(atom_test_term(x, cert))
-            continue
-        fl = f"({coq_str('__logic__%d' % k)}, {coq_str(cert['VAR'])})"
-        pre.append(f"CSet {fl} 0%Z")
-        for j, conj in enumerate(x):
-            ts = [atom_test_term(a, cert) for a in conj]
-            if j > 0:
-                ts = [f"(false, Matches {fl} (Exact 1%Z))"] + ts
-            pre.append(f"CExecute (mods_of [{'; '.join(ts)}]) (CSet {fl} 1%Z)")
-        tests.append(f"(true, Matches {fl} (Exact 1%Z))")
-        k += 1
-    return f"(mkCond [{'; '.join(pre)}] [{'; '.join(tests)}])"
+def cond_term(cond, cert, wrapped=True):
+    """`lowc nm wrapped <formula>`: the lowering is computed in Coq by Model.Cond.parse_condition (property C03's model)"""
+    return f"(lowc nm {'true' if wrapped else 'false'} {F3.coq_formula(f_c03(cond_formula(cond)), cert)})"
 
 
 def cmd_term(s, cert):
@@ -178,7 +264,7 @@ def stmt_term(s, cert):
     if k == "for":
         init = "; ".join(cmd_term(x, cert) for x in s[1])
         step = "; ".join(cmd_term(x, cert) for x in s[3])
-        return f"SFor [{init}] {cond_term(s[2], cert)} [{step}] {stmts_term(s[4], cert)}"
+        return f"SFor [{init}] {cond_term(s[2], cert, wrapped=False)} [{step}] {stmts_term(s[4], cert)}"
     raise ValueError(k)
 
 
@@ -192,7 +278,7 @@ def stmts_term(body, cert):
 def case_term(body, cert, res, ns="TEST"):
     """Run.C04.case for one compiled program (res = jmc_run result)"""
     if not res["ok"]:
-        return f'mkCase {names_term(cert, ns)} {stmts_term(body, cert)} "<error>" []'
+        return f'mkCase {names_term(cert, ns)} (fun nm => {stmts_term(body, cert)}) "<error>" []'
     fns = real_functions(res, ns)
     user = fns.pop("f", "<missing function f>")
     priv = [(f"{ns}:{k}", v) for k, v in sorted(fns.items()) if k.startswith(cert["PRIVATE"] + "/")]
@@ -200,7 +286,7 @@ def case_term(body, cert, res, ns="TEST"):
     if other:
         user = "<unexpected functions: %s>" % ",".join(other)
     pl = "; ".join(f"({coq_str(k)}, {coq_str(v)})" for k, v in priv)
-    return f"mkCase {names_term(cert, ns)} {stmts_term(body, cert)} {coq_str(user)} [{pl}]"
+    return f"mkCase {names_term(cert, ns)} (fun nm => {stmts_term(body, cert)}) {coq_str(user)} [{pl}]"
 
 
 def real_functions(res, ns="TEST"):
@@ -214,7 +300,7 @@ def real_functions(res, ns="TEST"):
 
 
 COQ_HEADER = ("From Coq Require Import ZArith String List.\n"
-              "From JMCV Require Import MC.Syntax Model.Names Model.PrivAlloc Model.IfElse Model.Loop Run.C04.\n"
+              "From JMCV Require Import MC.Syntax Model.Names Model.Cond Model.PrivAlloc Model.IfElse Model.Loop Run.C04.\n"
               "Import ListNotations.\nOpen Scope string_scope.\n")
 
 
@@ -227,6 +313,10 @@ class Diverge(Exception):
 def atom_true(a, sc, var):
     v, op, r = a
     x = sc.get((v, var))
+    if op == "truthy":
+        return x is not None and x >= 1
+    if op == "matches":
+        return x is not None and r[0] <= x <= r[1]
     y = r if isinstance(r, int) else sc.get((r, var))
     if op == "!=":
         return not (x is not None and y is not None and x == y)
@@ -235,14 +325,19 @@ def atom_true(a, sc, var):
     return {"==": x == y, "<": x < y, "<=": x <= y, ">": x > y, ">=": x >= y}[op]
 
 
+def f_true(f, sc, var):
+    k = f[0]
+    if k == "A":
+        return atom_true(f[1], sc, var)
+    if k == "!":
+        return not f_true(f[1], sc, var)
+    if k == "&":
+        return all(f_true(x, sc, var) for x in f[1])
+    return any(f_true(x, sc, var) for x in f[1])
+
+
 def cond_true(cond, sc, var):
-    for kind, x in cond:
-        if kind == "atom":
-            if not atom_true(x, sc, var):
-                return False
-        elif not any(all(atom_true(a, sc, var) for a in conj) for conj in x):
-            return False
-    return True
+    return f_true(cond_formula(cond), sc, var)
 
 
 class Interp:
@@ -308,9 +403,8 @@ def prog_vars(body, acc=None):
             acc.append(v)
 
     def cond(c):
-        for kind, x in c:
-            for a in ([x] if kind == "atom" else [a for conj in x for a in conj]):
-                add(a[0]); add(a[2])
+        for a in cond_atoms(c):
+            add(a[0]); add(a[2])
     for s in body:
         k = s[0]
         if k in ("set", "add", "sub"):
@@ -372,19 +466,23 @@ def semantic_failure(body, fns, cert, states, ns="TEST", budget=400):
     return None, runs, skipped, max_iters
 
 
-def states_for(body, cert, values=(0, 1), cap=64, rng=None, extra=()):
-    """initial states: every assignment of `values` to the program's variables (capped, then sampled)"""
+def states_for(body, cert, values=(0, 1), cap=64, rng=None, extra=(), domains=None):
+    """initial states: every assignment of `values` (or of its own domain) to the program's variables
+    (capped, then sampled)"""
     import itertools
     var = cert["VAR"]
     vs = [v for v in prog_vars(body) if not v.startswith("$L")]
-    total = len(values) ** len(vs)
+    doms = [tuple((domains or {}).get(v, values)) for v in vs]
+    total = 1
+    for dm in doms:
+        total *= len(dm)
     out = []
     if total <= cap:
-        for combo in itertools.product(values, repeat=len(vs)):
+        for combo in itertools.product(*doms):
             out.append({(v, var): x for v, x in zip(vs, combo) if x is not None})
     else:
         for _ in range(cap):
-            out.append({(v, var): x for v in vs for x in [rng.choice(values)] if x is not None})
+            out.append({(v, var): x for v, dm in zip(vs, doms) for x in [rng.choice(dm)] if x is not None})
     for e in extra:
         out.append({(v, var): x for v, x in e.items() if x is not None})
     return out
@@ -430,6 +528,87 @@ def or_cond(v, w, rng=None):
     if k == 2:
         return [("atom", (w, "<=", 1)), ("or", [[(v, "==", 1)], [(w, "==", 1)]])]
     return [("or", [[(v, "==", 1), (w, "<", 2)], [(w, "==", 1)]]), ("or", [[(v, ">=", 0)], [(w, "==", 7)]])]
+
+
+# ---- rich conditions (nested || under && under ||, !(a && b), several flags, mixed atoms)
+
+POS_FORMS = 8
+
+
+def pos(v, k=0):
+    """a formula over v alone that is true iff v == 1 when v ranges over {0, 1} (k selects the spelling)"""
+    k %= POS_FORMS
+    return [A(v, "==", 1), TRUTHY(v), A(v, ">=", 1), MATCHES(v, 1, 9), A(v, "!=", 0), A(v, ">", 0),
+            NOT(A(v, "==", 0)), NOT(A(v, "<", 1))][k]
+
+
+def neg(v, k=0):
+    """true iff v == 0 on {0, 1}"""
+    k %= 5
+    return [A(v, "==", 0), NOT(TRUTHY(v)), A(v, "<", 1), A(v, "!=", 1), MATCHES(v, -3, 0)][k]
+
+
+RICH = {
+    # the two shapes whose lowering needs "has this flag been written before?" to be decided by a set
+    "or_and_or": lambda a, b, c, d: OR(a, AND(b, OR(c, d))),                 # a || (b && (c || d))
+    "or_notand": lambda a, b, c, d: OR(a, NOT(AND(b, c))),                   # a || !(b && c)
+    "and_or_or": lambda a, b, c, d: AND(OR(a, b), OR(c, d)),                 # two flags side by side
+    "notand_and": lambda a, b, c, d: AND(NOT(AND(a, b)), c),
+    "nor": lambda a, b, c, d: NOT(OR(a, AND(b, c))),                         # De Morgan, || below a !
+    "or_or": lambda a, b, c, d: OR(OR(a, b), AND(c, d)),
+    "or_or_r": lambda a, b, c, d: OR(a, OR(b, AND(c, d))),
+    "not_and_or": lambda a, b, c, d: NOT(AND(a, OR(b, c))),
+    "deep": lambda a, b, c, d: OR(AND(a, NOT(AND(b, c))), AND(d, OR(b, NOT(a)))),
+    "and_or_notand": lambda a, b, c, d: AND(a, OR(b, NOT(AND(c, d)))),
+    "or3_mixed": lambda a, b, c, d: OR(AND(a, b), NOT(OR(c, d)), AND(c, NOT(b))),
+    "notnot": lambda a, b, c, d: OR(NOT(NOT(a)), AND(b, NOT(NOT(AND(c, d))))),
+    "or_last_group": lambda a, b, c, d: OR(a, b, AND(c, OR(d, NOT(AND(a, b))))),
+    "three_flags": lambda a, b, c, d: AND(OR(a, NOT(AND(b, c))), OR(d, AND(b, OR(a, c)))),
+}
+RICH_KINDS = list(RICH)
+
+
+def rich(kind, vars_, spell=0):
+    """the rich formula `kind` over four variables, atoms in rotating spellings"""
+    a, b, c, d = [pos(v, spell + 3 * i) for i, v in enumerate(vars_[:4])]
+    return RICH[kind](a, b, c, d)
+
+
+def f_vars(f):
+    out = []
+    for a in f_atoms(f):
+        for v in (a[0], a[2]):
+            if isinstance(v, str) and v not in out:
+                out.append(v)
+    return out
+
+
+def falsifier(f, var="v"):
+    """assignments (0/1) of the variables of f making it false, as `set` statements (None if there is none)"""
+    import itertools
+    vs = f_vars(f)
+    for combo in itertools.product((1, 0), repeat=len(vs)):
+        if not f_true(f, {(v, var): x for v, x in zip(vs, combo)}, var):
+            return [("set", v, x) for v, x in zip(vs, combo)]
+    return None
+
+
+def random_formula(rng, vars_, depth, p_leaf=0.1):
+    """random formula over the given variables: every connective, arity 2-3, mixed atom kinds"""
+    if depth == 0 or rng.random() < p_leaf:
+        v = rng.choice(vars_)
+        r = rng.random()
+        if r < 0.55:
+            return pos(v, rng.randrange(POS_FORMS))
+        if r < 0.8:
+            return neg(v, rng.randrange(5))
+        w = rng.choice(vars_)
+        return A(v, rng.choice(["==", "<", "<=", ">", ">=", "!="]), w)
+    r = rng.random()
+    if r < 0.2:
+        return NOT(random_formula(rng, vars_, depth - 1, p_leaf))
+    n = rng.choice([2, 2, 2, 3])
+    return ("&" if r < 0.55 else "|", [random_formula(rng, vars_, depth - 1, p_leaf + 0.2) for _ in range(n)])
 
 
 def chain_body(kind, i, nm: Names, later_vars, rng=None):
@@ -494,6 +673,9 @@ def random_cond(rng, vars_, allow_or=True):
             return (v, rng.choice(["==", "<", "<=", ">", ">=", "!="]), w)
         return (v, rng.choice(["==", "==", "!=", "<", "<=", ">", ">="]), rng.choice([0, 1, 1, 2]))
     items = []
+    if allow_or and rng.random() < 0.3:
+        f = random_formula(rng, vars_, rng.choice([2, 3, 3, 4]))
+        return [("atom", f[1])] if f[0] == "A" else [("f", f)]
     for _ in range(1 if rng.random() < 0.7 else 2):
         if allow_or and rng.random() < 0.45:
             items.append(("or", [[atom() for _ in range(1 if rng.random() < 0.75 else 2)]
@@ -535,9 +717,22 @@ def random_loop(rng, nm: Names, depth, vars_, kind=None, cond_kind=None):
     lv = nm.loopvar()
     bound = rng.choice([0, 1, 2, 3])
     kind = kind or rng.choice(["while", "dowhile", "for"])
-    cond_kind = cond_kind or rng.choice(["atomic", "and_or", "or", "plain"])
+    cond_kind = cond_kind or rng.choice(["atomic", "and_or", "or", "plain", "rich", "rich"])
     guard = (lv, "<", bound)
-    if cond_kind == "atomic" or cond_kind == "plain":
+    if cond_kind == "rich":
+        g = ("A", guard)
+        f = random_formula(rng, vars_, rng.choice([2, 3]))
+        t = rng.randrange(4)
+        if t == 0:
+            cond = [("f", AND(g, f))]
+        elif t == 1:
+            cond = [("f", AND(f, g))]
+        elif t == 2:
+            f2 = random_formula(rng, vars_, 2)
+            cond = [("f", OR(AND(g, f), AND(f2, g)))]
+        else:       # !(L >= N || !f)  ==  L < N && f
+            cond = [("f", NOT(OR(A(lv, ">=", bound), NOT(f))))]
+    elif cond_kind == "atomic" or cond_kind == "plain":
         cond = [("atom", guard)]
     elif cond_kind == "and_or":
         v, w = rng.choice(vars_), rng.choice(vars_)
@@ -661,7 +856,16 @@ def shape_tags(body, tags=None, depth=0):
         tags[t] = tags.get(t, 0) + 1
 
     def has_pre(c):
-        return any(k == "or" for k, _ in c)
+        return cond_pre_lines(c) > 0
+
+    def cond_tags(c, where):
+        f = cond_formula(c)
+        e, n = f_pre(f)
+        rich = f_depth(f) >= 3 or n >= 2 or any(k == "f" for k, _ in c)
+        hit(f"{where}_cond_{'rich' if rich else 'simple'}")
+        if rich:
+            hit(f"rich_flags{min(n, 4)}")
+            hit(f"rich_depth{min(f_depth(f), 5)}")
     for s in body:
         k = s[0]
         if k == "if":
@@ -681,6 +885,8 @@ def shape_tags(body, tags=None, depth=0):
                     hit(f"stages{wrapped - 1}")
                 for c, _ in s[1]:
                     hit("cond_pre" if has_pre(c) else "cond_atomic")
+            for j, (c, _) in enumerate(s[1]):
+                cond_tags(c, "if" if j == 0 else "elif_last" if j == n - 1 else "elif_mid")
             for _, b in s[1]:
                 shape_tags(b, tags, depth + 1)
             if els is not None:
@@ -689,6 +895,7 @@ def shape_tags(body, tags=None, depth=0):
             c = s[1] if k == "while" else s[2]
             b = s[2] if k == "while" else s[1] if k == "dowhile" else s[4]
             hit(f"{k}_{'pre' if has_pre(c) else 'atomic'}")
+            cond_tags(c, k)
             hit(f"loopdepth{depth}")
             shape_tags(b, tags, depth + 1)
     return tags
@@ -703,20 +910,34 @@ def lines_of(body):
             n += 1
         elif k == "if":
             if len(s[1]) == 1 and s[2] is None:
-                n += sum(0 if kk == "atom" else 1 + len(x) for kk, x in s[1][0][0]) + 1
+                n += cond_pre_lines(s[1][0][0]) + 1
             else:
-                n += 3 + sum(0 if kk == "atom" else 1 + len(x) for kk, x in s[1][0][0])
+                n += 3 + cond_pre_lines(s[1][0][0])
         elif k == "while":
-            n += sum(0 if kk == "atom" else 1 + len(x) for kk, x in s[1]) + 1
+            n += cond_pre_lines(s[1]) + 1
         elif k == "dowhile":
             n += 1
         elif k == "for":
-            n += len(s[1]) + sum(0 if kk == "atom" else 1 + len(x) for kk, x in s[2]) + 1
+            n += len(s[1]) + cond_pre_lines(s[2]) + 1
     return n
 
 
+def sub_conds(c):
+    """simpler conditions: an item dropped, a formula item replaced by a smaller formula"""
+    out = []
+    if len(c) > 1:
+        for t in range(len(c)):
+            out.append(c[:t] + c[t + 1:])
+    for t, (kind, x) in enumerate(c):
+        f = cond_formula([(kind, x)])
+        for g in f_smaller(f):
+            out.append(c[:t] + [("atom", g[1]) if g[0] == "A" else ("f", g)] + c[t + 1:])
+    return out
+
+
 def sub_programs(body):
-    """candidate simplifications of a program (one statement / branch / else removed, a body replaced)"""
+    """candidate simplifications of a program (one statement / branch / else removed, a body replaced,
+    a condition simplified)"""
     out = []
     for i, s in enumerate(body):
         if len(body) > 1:
@@ -735,9 +956,8 @@ def sub_programs(body):
             for j, (c, b) in enumerate(brs):
                 for nb in sub_programs(b):
                     put(("if", brs[:j] + [(c, nb)] + brs[j + 1:], els))
-                if len(c) > 1:
-                    for t in range(len(c)):
-                        put(("if", brs[:j] + [(c[:t] + c[t + 1:], b)] + brs[j + 1:], els))
+                for nc in sub_conds(c):
+                    put(("if", brs[:j] + [(nc, b)] + brs[j + 1:], els))
             if els is not None:
                 for nb in sub_programs(els):
                     put(("if", brs, nb))
@@ -747,14 +967,20 @@ def sub_programs(body):
             out.append(body[:i] + s[2] + body[i + 1:])          # the body once, without the loop
             for nb in sub_programs(s[2]):
                 put(("while", s[1], nb))
+            for nc in sub_conds(s[1]):
+                put(("while", nc, s[2]))
         elif k == "dowhile":
             out.append(body[:i] + s[1] + body[i + 1:])
             for nb in sub_programs(s[1]):
                 put(("dowhile", nb, s[2]))
+            for nc in sub_conds(s[2]):
+                put(("dowhile", s[1], nc))
         elif k == "for":
             out.append(body[:i] + s[1] + s[4] + body[i + 1:])
             for nb in sub_programs(s[4]):
                 put(("for", s[1], s[2], s[3], nb))
+            for nc in sub_conds(s[2]):
+                put(("for", s[1], nc, s[3], s[4]))
     return out
 
 
@@ -764,13 +990,13 @@ def size_of(body):
         n += 1
         k = s[0]
         if k == "if":
-            n += sum(size_of(b) + len(c) for c, b in s[1]) + (size_of(s[2]) if s[2] is not None else 0)
+            n += sum(size_of(b) + len(cond_atoms(c)) for c, b in s[1]) + (size_of(s[2]) if s[2] is not None else 0)
         elif k == "while":
-            n += size_of(s[2])
+            n += size_of(s[2]) + len(cond_atoms(s[1]))
         elif k == "dowhile":
-            n += size_of(s[1])
+            n += size_of(s[1]) + len(cond_atoms(s[2]))
         elif k == "for":
-            n += size_of(s[4])
+            n += size_of(s[4]) + len(cond_atoms(s[2]))
     return n
 
 
@@ -821,9 +1047,11 @@ def check_programs(ck, items, tier, what):
         if not r["ok"]:
             continue
         cert = CERTS[it["cert"]]
-        states = states_for(it["prog"], cert, values=values, cap=48 if tier == "quick" else 128, rng=ck.rng)
+        states = states_for(it["prog"], cert, values=values, cap=max(it.get("cap", 0), 48 if tier == "quick" else 128),
+                            rng=ck.rng, domains=it.get("values"))
         # the same states again with stale scratch scores left behind by earlier code
-        stale = {("__if_else__", cert["VAR"]): 1, ("__logic__0", cert["VAR"]): 1, ("__logic__1", cert["VAR"]): 1}
+        stale = {("__if_else__", cert["VAR"]): 1, ("__logic__0", cert["VAR"]): 1, ("__logic__1", cert["VAR"]): 1,
+                 ("__logic__2", cert["VAR"]): 1}
         states = states + [{**s, **stale} for s in states[::2]]
         f, nr, sk, mi = semantic_failure(it["prog"], real_functions(r), cert, states)
         n_runs += nr
@@ -926,8 +1154,19 @@ def to_tuples(x):
             return ("for", body(s[1]), cond(s[2]), body(s[3]), body(s[4]))
         raise ValueError(k)
 
+    def atom(a):
+        return (a[0], a[1], tuple(a[2]) if isinstance(a[2], list) else a[2])
+
+    def form(f):
+        if f[0] == "A":
+            return ("A", atom(f[1]))
+        if f[0] == "!":
+            return ("!", form(f[1]))
+        return (f[0], [form(x) for x in f[1]])
+
     def cond(c):
-        return [("atom", tuple(x)) if k == "atom" else ("or", [[tuple(a) for a in conj] for conj in x]) for k, x in c]
+        return [("atom", atom(x)) if k == "atom" else ("or", [[atom(a) for a in conj] for conj in x]) if k == "or"
+                else ("f", form(x)) for k, x in c]
 
     def body(b):
         return [stmt(s) for s in b]
